@@ -239,6 +239,17 @@ class Interp:
                                     cur = current_context()
                                 except Exception:
                                     cur = None
+                                # a context created by the callback takes the one being torn down - the current one - as its parent
+                                from asphalt.core import Context as _Context
+
+                                try:
+                                    made_parent = _Context().parent
+                                except Exception:
+                                    made_parent = None
+                                self.inc("contexts_created_inside_a_teardown_callback")
+                                if made_parent is not ctx:
+                                    self.bad("current-parent", f"task {tid}: a context created inside a teardown callback has parent "
+                                                               f"{self.name(made_parent, stack) if made_parent else None}, not the context being torn down")
                                 if cur is not ctx:
                                     self.bad("current-wrong[in-teardown-callback]", f"task {tid}: inside a teardown callback current_context() is "
                                                                                     f"{self.name(cur, stack) if cur else None}, not the context being torn down")
